@@ -44,6 +44,10 @@ type Config struct {
 	// (which = 1) is moved onto the measured similarity of left i / right j, adjusted by the k-th of
 	// {exactly, one ulp above, one ulp below, 3e-7 above, 3e-7 below, 4e-5 above, 4e-5 below}: boundary inputs
 	Near []int `json:"near"`
+	// Married: consecutive individuals (1st and 2nd, 3rd and 4th, ...) of each side are husband and wife, so that the
+	// similarity of a pair depends on the lazily collected spouses; Fillers: that many further (empty) family records
+	Married bool `json:"married"`
+	Fillers int  `json:"fillers"`
 }
 
 var nudges = []func(float64) float64{
@@ -62,8 +66,8 @@ func applyNear(c Config) Config {
 		c.Near = []int{}
 		return c
 	}
-	left, _ := gedcom.NewDocumentFromString(docText(c.PtrL, c.UidL, c.WhoL, "L"))
-	right, _ := gedcom.NewDocumentFromString(docText(c.PtrR, c.UidR, c.WhoR, "R"))
+	left, _ := gedcom.NewDocumentFromString(docText(c.PtrL, c.UidL, c.WhoL, "L", c.Married, c.Fillers))
+	right, _ := gedcom.NewDocumentFromString(docText(c.PtrR, c.UidR, c.WhoR, "R", c.Married, c.Fillers))
 	a, b := left.Individuals()[c.Near[0]], right.Individuals()[c.Near[1]]
 	o := options(c, 1)
 	v := a.SurroundingSimilarity(b, o.SimilarityOptions, true).WeightedSimilarity()
@@ -84,7 +88,7 @@ var surnames = []string{"Zz", "Alderman", "Brightwater", "Cunningham", "Drummond
 
 func uidText(u int) string { return fmt.Sprintf("%032X", 0xABCDEF00+u) }
 
-func docText(ptrs, uids, whos []int, side string) string {
+func docText(ptrs, uids, whos []int, side string, married bool, fillers int) string {
 	var b strings.Builder
 	b.WriteString("0 HEAD\n")
 	for i := range ptrs {
@@ -96,6 +100,20 @@ func docText(ptrs, uids, whos []int, side string) string {
 		}
 		if uids[i] != 0 {
 			fmt.Fprintf(&b, "1 _UID %s\n", uidText(uids[i]))
+		}
+		if married && (i^1) < len(ptrs) {
+			fmt.Fprintf(&b, "1 FAMS @F%d@\n", i/2+1)
+		}
+	}
+	if married {
+		for k := 0; k < fillers/2; k++ {
+			fmt.Fprintf(&b, "0 @X%d@ FAM\n", k)
+		}
+		for i := 0; i+1 < len(ptrs); i += 2 {
+			fmt.Fprintf(&b, "0 @F%d@ FAM\n1 HUSB @P%d@\n1 WIFE @P%d@\n", i/2+1, ptrs[i], ptrs[i+1])
+		}
+		for k := fillers / 2; k < fillers; k++ {
+			fmt.Fprintf(&b, "0 @X%d@ FAM\n", k)
 		}
 	}
 	b.WriteString("0 TRLR\n")
@@ -127,11 +145,11 @@ type Input struct {
 }
 
 func measure(c Config) (Input, error) {
-	left, err := gedcom.NewDocumentFromString(docText(c.PtrL, c.UidL, c.WhoL, "L"))
+	left, err := gedcom.NewDocumentFromString(docText(c.PtrL, c.UidL, c.WhoL, "L", c.Married, c.Fillers))
 	if err != nil {
 		return Input{}, err
 	}
-	right, err := gedcom.NewDocumentFromString(docText(c.PtrR, c.UidR, c.WhoR, "R"))
+	right, err := gedcom.NewDocumentFromString(docText(c.PtrR, c.UidR, c.WhoR, "R", c.Married, c.Fillers))
 	if err != nil {
 		return Input{}, err
 	}
@@ -249,8 +267,8 @@ func (r *recorder) hook(role string, worker int, point string, args ...string) {
 }
 
 func compareOnce(c Config, jobs int, seed int64, perturb bool) (final []Pair, logs map[string][]Event, timedOut bool, panicMsg string) {
-	left, _ := gedcom.NewDocumentFromString(docText(c.PtrL, c.UidL, c.WhoL, "L")) // cold caches
-	right, _ := gedcom.NewDocumentFromString(docText(c.PtrR, c.UidR, c.WhoR, "R"))
+	left, _ := gedcom.NewDocumentFromString(docText(c.PtrL, c.UidL, c.WhoL, "L", c.Married, c.Fillers)) // cold caches
+	right, _ := gedcom.NewDocumentFromString(docText(c.PtrR, c.UidR, c.WhoR, "R", c.Married, c.Fillers))
 	rec := &recorder{logs: map[string][]Event{}, rng: rand.New(rand.NewSource(seed)), on: perturb}
 	setHook(rec.hook)
 	defer setHook(nil)
@@ -373,6 +391,21 @@ func randConfig(rng *rand.Rand, maxN int) Config {
 		if c.Near[3] == 1 {
 			c.PtrR[j] = c.PtrL[i] // the trusted-pointer level only matters for a shared pointer
 		}
+	}
+	if nl >= 2 && nr >= 2 && rng.Intn(4) == 0 {
+		// married couples, many family records, and the threshold right on the similarity of a married pair: the
+		// similarity then depends on spouses that are collected lazily while other workers look
+		c.Married, c.Fillers = true, 200+rng.Intn(600)
+		i := rng.Intn(nl)
+		j := i
+		if j >= nr {
+			j = rng.Intn(nr)
+		}
+		c.WhoR[j] = c.WhoL[i]
+		if (i^1) < nl && (j^1) < nr {
+			c.WhoR[j^1] = c.WhoL[i^1] // the same spouse on both sides
+		}
+		c.Near = []int{i, j, []int{0, 2, 4, 6}[rng.Intn(4)], 0}
 	}
 	// pointers on the right must be unique
 	seen := map[int]bool{}
